@@ -257,6 +257,10 @@ pub fn oracle_c04(case: &RespCase, out: &RespOut) -> Verdict {
     if m.header_count("Content-Length") > 0 && m.header_count("Transfer-Encoding") > 0 {
         return fail("C04/both-framing-headers", head_preview(&out.bytes[..m.head_len]));
     }
+    // the conforming client of an HTTP/1.0 request is an HTTP/1.0 client: it knows no transfer codings
+    if case.version <= (1, 0) && m.header_count("Transfer-Encoding") > 0 {
+        return fail("C04/transfer-coding-sent-to-http10-client", head_preview(&out.bytes[..m.head_len]));
+    }
     let on_wire = !expect_body.is_empty();
     let mut g = if on_wire { Good::nontrivial() } else { Good::trivial() };
     g = g
